@@ -23,6 +23,8 @@ SUPPORTS = {
     "W7bPushedCellIsPrivate": ["C19"],
     "W8SessionSchemeIsPrivate": ["C19"],
     "W9ReaderStateIsPrivate": ["C01", "C08"],
+    "W10CommandCodesAreTheProtocols": ["C03"],
+    "W11LivenessStateIsPrivate": ["C14"],
 }
 
 
